@@ -869,6 +869,8 @@ class Interp:
                 pass
             env.vars[kname] = Sym(k + 1)
             ctx.where = where
+            if getattr(spec, "step", None):
+                spec.step(ctx, self, env.vars)
             for name, f in spec.invariant(ctx, self, env.vars):
                 ctx.oblige(f"loop{o}.preserved.{name}", f, kind="invariant")
             raise PathEnd()
